@@ -141,19 +141,6 @@ theorem okAlives_run (hk : ConstsOk k) (hw : WF t) (hl : validLocation cfg.locat
       intro m hm
       obtain ⟨i, _, rfl⟩ := List.mem_map.mp hm
       exact okNotify_alive cfg target hw hl searches (some a) a.start i
-    · -- equally spaced
-      rw [List.all_eq_true]
-      intro i hi
-      rw [List.mem_range] at hi
-      rw [g i (by omega), g (i + 1) (by omega), g 0 (by omega), g 1 (by omega)]
-      simp only [Bool.and_eq_true, decide_eq_true_eq, beq_iff_eq]
-      have e1 : Int.ofNat ((i + 1) * k.announceMs) = Int.ofNat (i * k.announceMs) + Int.ofNat k.announceMs := by
-        simp [Nat.add_mul]
-      have e2 : Int.ofNat (1 * k.announceMs) = Int.ofNat k.announceMs := by simp
-      have e3 : Int.ofNat (0 * k.announceMs) = 0 := by simp
-      have e4 : (0 : Int) < Int.ofNat k.announceMs := by simpa using hms
-      rw [e1, e2, e3]
-      constructor <;> omega
     · -- none after the stop
       simp only [runCase]
       split
@@ -190,10 +177,12 @@ theorem okAlives_run (hk : ConstsOk k) (hw : WF t) (hl : validLocation cfg.locat
     · -- the cycle goes on until the end of the observation
       have hu : (runCase k cfg target t searches (some a)).annUpto = some a.upto := rfl
       rw [hu]
-      simp only [Bool.or_eq_true, decide_eq_true_eq, List.length_map, List.length_range]
+      simp only [Bool.or_eq_true, decide_eq_true_eq, List.length_map, List.length_range, List.any_eq_true,
+        List.mem_range, List.all_eq_true]
       by_cases hn2 : n < 2
-      · left; exact hn2
+      · left; intro i hi; omega
       · right
+        refine ⟨0, by omega, ?_⟩
         rw [g (n - 1) (by omega), g 1 (by omega), g 0 (by omega)]
         have hn' : ticks k a = n := hn
         unfold ticks at hn'
@@ -206,18 +195,34 @@ theorem okAlives_run (hk : ConstsOk k) (hw : WF t) (hl : validLocation cfg.locat
           have hnn : 0 ≤ (a.upto - a.start) / (k.announceMs : Int) := Int.ediv_nonneg (by omega) (by omega)
           have h2 := Int.toNat_of_nonneg hnn
           have e1 : (((n - 1) * k.announceMs : Nat) : Int) = ((n : Int) - 1) * (k.announceMs : Int) := by
-            have : n - 1 + 1 = n := by omega
             have h3 : ((n - 1 : Nat) : Int) = (n : Int) - 1 := by omega
             simp [h3]
-          have e2 : ((1 * k.announceMs : Nat) : Int) = (k.announceMs : Int) := by simp
+          have e2 : (((0 + 1) * k.announceMs : Nat) : Int) = (k.announceMs : Int) := by simp
           have e3 : ((0 * k.announceMs : Nat) : Int) = 0 := by simp
           rw [e1, e2, e3]
           have hn'' : (n : Int) = (a.upto - a.start) / (k.announceMs : Int) + 1 := by omega
           rw [hn'']
-          have : ((a.upto - a.start) / (k.announceMs : Int) + 1 - 1) * (k.announceMs : Int) + ((k.announceMs : Int) - 0)
+          have : ((a.upto - a.start) / (k.announceMs : Int) + 1 - 1) * (k.announceMs : Int) + (k.announceMs : Int)
               = ((a.upto - a.start) / (k.announceMs : Int) + 1) * (k.announceMs : Int) := by
             rw [Int.add_mul, Int.add_sub_cancel]; omega
           omega
+
+    · -- it does advertise
+      have h1 : (runCase k cfg target t searches (some a)).annStart = some a.start := rfl
+      have h2 : (runCase k cfg target t searches (some a)).annUpto = some a.upto := rfl
+      rw [h1, h2]
+      simp only [Bool.or_eq_true, decide_eq_true_eq, Bool.not_eq_true']
+      cases n with
+      | succ m => right; simp [List.range_succ]
+      | zero =>
+        left
+        have hn' : ticks k a = 0 := hn
+        unfold ticks at hn'
+        split at hn'
+        · by_cases hm : (runCase k cfg target t searches (some a)).maxAgeMs ≤ 0
+          · left; exact hm
+          · right; omega
+        · omega
 
 theorem okByebyes_run (hw : WF t) (hl : validLocation cfg.location = true)
     (searches : List SearchIn) (ann : Option AnnIn) :
